@@ -429,6 +429,64 @@ func tlbWorker(w *mon.Worker) {
 		if len(seeds) > 0 {
 			w.Count("types_with_valid_seed", 1)
 		}
+		// one fault at a time, enumerated over every position of the valid encodings: each reference dropped,
+		// each reference replaced by a pruned branch / a library cell, each cell cut at a few bit positions,
+		// each cell emptied
+		for si, sd := range seeds {
+			cells := allCells(sd)
+			if len(cells) > 40 {
+				cells = cells[:40]
+			}
+			nf := 0
+			one := func(desc string, edit func(c *hcell)) {
+				cp := clone(sd, map[*hcell]*hcell{})
+				cc := allCells(cp)
+				for ci := range cells {
+					if ci >= len(cc) {
+						break
+					}
+					before := len(cc[ci].bits)*8 + len(cc[ci].refs)
+					edit(cc[ci])
+					_ = before
+					nf++
+					observeTLB(w, e, cp, "single-fault", fmt.Sprintf("%s@cell%d", desc, ci), fmt.Sprintf("s%d/f%d", si, nf))
+					cp = clone(sd, map[*hcell]*hcell{})
+					cc = allCells(cp)
+				}
+			}
+			frng := w.Rng("fault/"+e.Name, si)
+			for ri := 0; ri < 4; ri++ {
+				ri := ri
+				one(fmt.Sprintf("drop-ref%d", ri), func(c *hcell) {
+					if ri < len(c.refs) {
+						c.refs = append(c.refs[:ri:ri], c.refs[ri+1:]...)
+					}
+				})
+				one(fmt.Sprintf("pruned-ref%d", ri), func(c *hcell) {
+					if ri < len(c.refs) {
+						c.refs[ri] = &hcell{bits: bytesBits(append([]byte{1, 1}, frng.Bytes(34)...)), exotic: true, mask: 1}
+					}
+				})
+				one(fmt.Sprintf("library-ref%d", ri), func(c *hcell) {
+					if ri < len(c.refs) {
+						c.refs[ri] = &hcell{bits: bytesBits(append([]byte{2}, frng.Bytes(32)...)), exotic: true}
+					}
+				})
+			}
+			one("drop-all-refs", func(c *hcell) { c.refs = nil })
+			one("empty", func(c *hcell) { c.bits = nil })
+			one("cut-half", func(c *hcell) { c.bits = c.bits[:len(c.bits)/2] })
+			one("cut-last-bit", func(c *hcell) {
+				if len(c.bits) > 0 {
+					c.bits = c.bits[:len(c.bits)-1]
+				}
+			})
+			one("keep-first-bit", func(c *hcell) {
+				if len(c.bits) > 1 {
+					c.bits = c.bits[:1]
+				}
+			})
+		}
 		for k := 0; k < j.PerType; k++ {
 			rng := w.Rng("tree/"+e.Name, k)
 			var h *hcell
